@@ -868,7 +868,7 @@ Section BRIDGE.
     Qed.
 
     (* the fp_sel CTE: every matcher is witnessed by an index row of the fingerprint *)
-    Lemma fp_sel_list_in ms fp : ms <> [] -> (List.length ms <= 8)%nat ->
+    Lemma fp_sel_list_in ms fp : ms <> [] -> (List.length ms <= 64)%nat ->
       (List.In fp (fp_sel_list ms) <->
        forall m, List.In m ms -> exists g, List.In g (d_gin d) /\ g_fp g = fp /\ (D <= g_day g)%Z
                                       /\ type_in c (g_type g) = true /\ clause_b m (g_key g) (g_val g) = true).
@@ -904,7 +904,7 @@ Section BRIDGE.
     Definition series_live (fp : Z) : Prop :=
       exists s, List.In s (d_series d) /\ ts_fp s = fp /\ (D <= ts_day s)%Z /\ type_in c (ts_type s) = true.
 
-    Lemma fp_sel_sem ms fp : ms <> [] -> (List.length ms <= 8)%nat ->
+    Lemma fp_sel_sem ms fp : ms <> [] -> (List.length ms <= 64)%nat ->
       (forall m, List.In m ms -> matcher_val_ok re_match m "" = true ->
          forall s, List.In s (d_series d) -> List.In (m_name m) (map fst (ts_labels s))) ->
       (List.In fp (fp_sel_list ms) <-> series_live fp /\ forallb (matcher_ok re_match (sl fp)) ms = true).
@@ -939,7 +939,7 @@ Section BRIDGE.
       - intros [Hin Hl]. destruct (HF fp Hin) as [s [Hs Hfp]]. exists s. split; [exact Hfp|].
         apply filter_In. split; [exact Hs|]. subst fp. rewrite (sl_series s Hs) in Hl. rewrite Hl, andb_true_r. now apply memz_in.
     Qed.
-    Lemma fp_chain_in ms : forall fs fp, ms <> [] -> (List.length ms <= 8)%nat ->
+    Lemma fp_chain_in ms : forall fs fp, ms <> [] -> (List.length ms <= 64)%nat ->
       (forall m, List.In m ms -> matcher_val_ok re_match m "" = true ->
          forall s, List.In s (d_series d) -> List.In (m_name m) (map fst (ts_labels s))) ->
       (List.In fp (fp_chain_list ms fs) <->
@@ -968,7 +968,7 @@ Section BRIDGE.
       Variable ppl : list stage.
       Let q := {| sel_matchers := ms; sel_pipeline := ppl |}.
       Hypothesis Hne : ms <> [].
-      Hypothesis Hlen : (List.length ms <= 8)%nat.
+      Hypothesis Hlen : (List.length ms <= 64)%nat.
       Hypothesis Hsup : forallb stage_supported ppl = true.
       Hypothesis Hguard : absent_guard re_match q d.
       Let F := fp_chain_list ms (slfs ppl).
@@ -1101,7 +1101,8 @@ Proof.
   unfold in_fragment in Hfrag. cbn [sel_matchers sel_pipeline] in Hfrag. apply andb_prop in Hfrag. destruct Hfrag as [Hne Hsup].
   unfold width_guard in Hw. cbn [sel_matchers] in Hw. apply Nat.leb_le in Hw.
   apply (log_plan_correct re_match parse_float tie Htie c d Hctx Hdb ms ppl); try assumption.
-  intros ->. discriminate.
+  - intros ->. discriminate.
+  - lia.
 Qed.
 
 (* ---- defect #16: a matcher that accepts "" does not select the series lacking the label ---- *)
@@ -1145,7 +1146,7 @@ Proof.
     apply Permutation_length in Hsem. vm_compute in Hsem. discriminate.
 Qed.
 
-(* ---- the UInt8 bitmask: with nine matchers bit 8 is shifted out, HAVING never holds ---- *)
+(* ---- nine matchers: selected nothing while the bitmask was the UInt8 of the condition (fixed by 052673d) ---- *)
 Definition w9_names : list string := ["l1"; "l2"; "l3"; "l4"; "l5"; "l6"; "l7"; "l8"; "l9"].
 Definition w9_series : series_row :=
   {| ts_day := 19675; ts_fp := 7; ts_labels := map (fun n => (n, "v")) w9_names; ts_type := 1 |}.
@@ -1154,33 +1155,11 @@ Definition w9_db : database :=
      d_samples := [{| x_fp := 7; x_ts := 1700000000000000005; x_line := "hello"; x_type := 1 |}] |}.
 Definition w9_query : strsel :=
   {| sel_matchers := map (fun n => {| m_name := n; m_op := MEq; m_val := "v" |}) w9_names; sel_pipeline := [] |}.
-Lemma w9_db_ok : db_ok w_ctx w9_db.
-Proof.
-  unfold db_ok, w9_db. cbn [d_gin d_series d_samples]. split; [|split; [|split]].
-  - intros g. split.
-    + intros Hg. apply in_map_iff in Hg. destruct Hg as [kv [<- Hkv]]. exists w9_series, kv. split; [now left|tauto].
-    + intros [s [kv [[<-|[]] [Hkv ->]]]]. apply in_map_iff. now exists kv.
-  - intros s1 s2 [<-|[]] [<-|[]] _. reflexivity.
-  - intros s [<-|[]]. cbn. repeat constructor; cbn; intuition discriminate.
-  - intros x [<-|[]]. exists w9_series. cbn. split; [now left|]. split; [reflexivity|]. split; [reflexivity|].
-    vm_compute. discriminate.
-Qed.
-Theorem logql_log_width_refuted_proof :
-  exists re_match parse_float (tie : forall A : Type, list A -> list A) q c d,
-    (forall A (l : list A), Permutation (tie A l) l) /\ in_fragment q = true /\ oracle_ok re_match parse_float q
-    /\ ctx_ok c = true /\ db_ok c d /\ absent_guard re_match q d
-    /\ ~ log_correct re_match parse_float tie q c d.
-Proof.
-  exists no_re, no_float, tie_id, w9_query, w_ctx, w9_db.
-  split; [intros A l; apply Permutation_refl|]. split; [reflexivity|]. split; [intros s []|].
-  split; [reflexivity|]. split; [exact w9_db_ok|]. split.
-  - intros m Hm He. exfalso. cbn in Hm.
-    repeat (destruct Hm as [<-|Hm]; [vm_compute in He; discriminate|]). destruct Hm.
-  - intros [sel [rows [outs [Hsel [Hev [Hout Hsem]]]]]].
-    vm_compute in Hsel. injection Hsel as <-. vm_compute in Hev. injection Hev as <-.
-    destruct outs; [|discriminate]. unfold logql_sem in Hsem. cbn [c_limit w_ctx Z.eqb] in Hsem.
-    apply Permutation_length in Hsem. vm_compute in Hsem. discriminate.
-Qed.
+Example nine_matchers_select :
+  exists sel, log_select w9_query w_ctx = Some sel
+    /\ option_map (map row_out) (eval no_re no_float tie_id (to_sqldb w_ctx w9_db) sel)
+       = Some [Some {| o_fp := 7; o_labels := ts_labels w9_series; o_line := "hello"; o_ts := 1700000000000000005 |}].
+Proof. eexists. split; [vm_compute; reflexivity|]. vm_compute. reflexivity. Qed.
 
 (* ---- the guards of the partial theorem are met by ordinary queries and data ---- *)
 Definition ex_query : strsel :=
